@@ -19,11 +19,11 @@ Ltac ev_iso3f := cbv -[Rmult Rdiv Rinv Rplus Rminus Ropp IZR Q2R Req_EM_T Rlt_de
                       RNum conv_col c_pressure c_loading c_material c_temperature iso_temperature spec_conv p_canon l_canon l_canon_phys m_canon
                       l_unit l_basis ostr_in kelvin_of map].
 
-Theorem convert_material_step_phys psat M rml rmg dens mm T tk rp cp cl cb li pi vb (rl : lrep) (rm rm' : mrep) :
+Theorem convert_material_step_phys (a : adsorbate RNum) dens mm T tk rp cp cl cb li pi vb (rl : lrep) (rm rm' : mrep) :
   0 < dens -> 0 < mm -> l_is_phys rl = true ->
-  convert_material RNum (mk_state rp rl rm tk T (ads_full psat M rml rmg) (mat_full dens mm) cp cl cb li pi) (m_basis rm') (m_unit rm') vb
-  = SOk (if mrep_eqb rm' rm then mk_state rp rl rm tk T (ads_full psat M rml rmg) (mat_full dens mm) cp cl cb li pi
-         else mk_state rp rl rm' tk T (ads_full psat M rml rmg) (mat_full dens mm) cp
+  convert_material RNum (mk_state rp rl rm tk T a (mat_full dens mm) cp cl cb li pi) (m_basis rm') (m_unit rm') vb
+  = SOk (if mrep_eqb rm' rm then mk_state rp rl rm tk T a (mat_full dens mm) cp cl cb li pi
+         else mk_state rp rl rm' tk T a (mat_full dens mm) cp
                 (map (spec_conv (m_canon dens mm rm') (m_canon dens mm rm)) cl) cb None None).
 Proof.
   intros Hd Hm Hphys.
